@@ -369,6 +369,18 @@ impl Oracle for UnsolOracle {
                                         self.enabled[i] = func == refapp::FUNC_ENABLE_UNSOL;
                                     }
                                 }
+                                // "DISABLE_UNSOLICITED stops it" - also when it comes by broadcast: the series in flight is over,
+                                // exactly as for the unicast request; the next one waits for the retry delay
+                                if func == refapp::FUNC_DISABLE_UNSOL {
+                                    if let Some(series) = &self.outstanding {
+                                        if !series.is_null {
+                                            self.nontrivial = true;
+                                            self.bump("probe.series_cancelled_by_broadcast");
+                                            self.not_before = Some(*t + self.retry_delay);
+                                        }
+                                        self.outstanding = None;
+                                    }
+                                }
                             }
                         }
                         if s.starts_with("unsolicited_confirmed") {
@@ -618,6 +630,22 @@ impl Oracle for UnsolOracle {
                     // implicit end of the previous series by timeout
                     if let Some(series) = self.outstanding.clone() {
                         if rx.bytes == series.bytes {
+                            // R2 for retries: "DISABLE_UNSOLICITED stops it" - however the request came (unicast cancels the
+                            // series, a broadcast is processed silently): events of a class that has been disabled since the
+                            // series began are not sent unsolicited again
+                            for id in &series.ids {
+                                let class = self.ledger.events.get(id).map(|e| e.class).unwrap_or(0);
+                                if (1..=3).contains(&class) && !self.enabled[class as usize - 1] {
+                                    return Some(Violation::new(
+                                        "C14/R2 event-of-class-not-enabled",
+                                        "retry-after-disable",
+                                        format!(
+                                            "step {}: unsolicited seq {} is re-sent at {} ms with event {} of class {}, which has been disabled since the series began",
+                                            step.op_index, series.seq, t, id, class
+                                        ),
+                                    ));
+                                }
+                            }
                             // R4: a retry
                             if series.is_null {
                                 return Some(Violation::new(
